@@ -982,7 +982,10 @@ func opts(sp spec) e2.Opts {
 
 var onLeak func(string)
 
-var flaky []string
+var (
+	flaky     []string
+	confirmed = map[string]bool{}
+)
 
 func run(t *testing.T, sp spec) (outcome string, fail *failure, leak string) {
 	leak = e2.Run(t, func(w *e2.World) {
@@ -1025,7 +1028,7 @@ func check(c *vfw.Ctx, t *testing.T, sp spec) {
 	outcome, fail, leak := run(t, sp)
 	c.Case(true)
 	c.Add("executions:"+sp.Fam, 1)
-	if fail != nil && fail.key != "harness" && leak == "" {
+	if fail != nil && fail.key != "harness" && leak == "" && !confirmed[fail.key] {
 		// policy against false alarms (DESIGN.md 3.2): a violation must reproduce on every one of
 		// 4 more executions of the same history; a flicker is schedule-dependent (engine E3's
 		// job) and is logged in the evidence, never reported as a VIOLATION.
@@ -1040,6 +1043,7 @@ func check(c *vfw.Ctx, t *testing.T, sp spec) {
 				return
 			}
 		}
+		confirmed[fail.key] = true // later cases of the same class are reported without re-running
 	}
 	if leak != "" {
 		c.Violate("goroutine-leak", "library goroutines alive after Close: "+leak[:min(len(leak), 600)], sp)
@@ -1091,7 +1095,7 @@ func TestCheck(t *testing.T) {
 			"send: every not-selected situation reached by a history {never opened, dial black-holed, dial refused, listening, TCP up not selected, deselected by the peer, active select rejected (status 2), peer closed / sent Separate and the library waits in backoff, T6/T7 expiry, re-dialed not yet selected, closed, closed+reopened (connecting/listening/not yet selected)} x entry point {SendDataMessage W, no-W, SendDataMessageAsync, SendSECS2Message, ReplyDataMessage, ForwardDataMessage, ForwardDataMessageAsync, all seven in a row}: prompt not-selected/not-open error, zero bytes on every peer socket (at once, 50 ms later, on the next generation), drop counter +1 per call, linktest still answered, and after the select completes each entry point writes exactly its one frame. " +
 			"queued: the peer's receive window is closed, two asynchronous data sends {SendDataMessageAsync, ReplyDataMessage, ForwardDataMessageAsync}^2 are accepted while Selected (the first blocks in its write, the second waits in the queue), the peer deselects, the window reopens: only the write already in progress may complete, the queued message never reaches the wire (not even after a re-select) and is counted as one drop. " +
 			"inbound: every connected-not-selected situation x 1..2 data frames over kinds {primary W, primary, secondary, primary with body, SxF0, S9F1} x session id {own, foreign, 0xFFFF, 0} x system bytes {0, 1, 2^32-1, arbitrary} x session-id validation: exactly Reject.req(reason 4, echoed session id and system bytes), no delivery, state and link unchanged, linktest answered, select accepted, data then delivered byte-identical. " +
-			"pipe: streams [Select.rsp(0)][data]{1,2} (active), [Select.req][data]{1,2} (passive), [Deselect.req][Select.req][data] (both), [Select.req][data] against the active library's own outstanding select, under every segmentation with <= 2 cut points plus all-single-bytes (thorough: also 1 ms between segments, 3 cut points on the <= 31-byte streams, ordered pairs of entry points, equip/validation variants of send): deliveries in order and byte-identical, exact control answers, never a Reject. non-trivial = every case")
+			"pipe: streams [Select.rsp(0)][data]{1,2} (active), [Select.req][data]{1,2} (passive), [Deselect.req][Select.req][data] (both), [Select.req][data] against the active library's own outstanding select, under every segmentation with <= 2 cut points plus all-single-bytes (thorough: also 1 ms between segments, 3 cut points, ordered triples of inbound frame kinds, ordered pairs of entry points, equip/validation variants of send): deliveries in order and byte-identical, exact control answers, never a Reject. non-trivial = every case")
 		c.Assume("testing/synctest virtual time and durable-blocking detection", "sim in-memory network", "expected frames written from SEMI E37 (Reject.req layout, Select/Deselect/Linktest answers)", "Select.rsp status 2 and T6/T7 expiry drop the link (checked by the recipes, harness error otherwise)")
 		if c.Replay != nil {
 			var sp spec
@@ -1163,6 +1167,18 @@ func TestCheck(t *testing.T) {
 							}
 						}
 					}
+					if c.Thorough() { // ordered triples of kinds
+						for i, k1 := range inKinds {
+							for j, k2 := range inKinds {
+								for l, k3 := range inKinds {
+									in := []inFrame{{k1, sids[i%4], syss[j%4]}, {k2, sids[(i+j+1)%4], syss[(j+2)%4]}, {k3, sids[(l+2)%4], syss[(i+l+1)%4]}}
+									if !do(spec{Fam: "inbound", Active: active, Validate: validate, Sit: sit, In: in}) {
+										return
+									}
+								}
+							}
+						}
+					}
 					// ordered pairs of kinds, distinct session ids / system bytes
 					for i, k1 := range inKinds {
 						for j, k2 := range inKinds {
@@ -1207,7 +1223,7 @@ func TestCheck(t *testing.T) {
 							if !do(s2) {
 								return
 							}
-							if c.Thorough() && gap == 0 && n <= 31 { // three cut points on the short streams
+							if c.Thorough() && gap == 0 { // three cut points
 								for d := b + 1; d < n; d++ {
 									s3 := base
 									s3.Cuts = []int{a, b, d}
